@@ -870,6 +870,53 @@ static void build(vf::Plan &plan, const vf::Opts &o)
                    });
     }
     {
+        // long output: one multi-byte character at every byte offset of a long ASCII run (crossing every power-of-two
+        // block size a sink might work in), as a string argument, as a literal of the format string, and as an
+        // ST::string inserted into the four stream types
+        const unsigned PMAX = th ? 17000 : 4200;
+        auto mk = [](uint64_t i, unsigned &how) {
+            how = (unsigned)vf::take(i, 2);
+            unsigned kind = (unsigned)vf::take(i, 3);
+            size_t pos = (size_t)i;
+            static const char *const CH[3] = {"\xC3\xA9", "\xE2\x82\xAC", "\xF0\x9F\x98\x80"};
+            std::string t(pos, 'a');
+            for (size_t k = 0; k < pos; k += 61) t[k] = (char)('b' + (k / 61) % 20);
+            t += CH[kind];
+            t += "z";
+            return t;
+        };
+        plan.stage(strf("format:long text, a 2-/3-/4-byte character at every offset 0..%u, as argument and as literal, all sinks", PMAX),
+                   (uint64_t)2 * 3 * (PMAX + 1),
+                   [mk](uint64_t i, Ctx &c) {
+                       unsigned how;
+                       std::string t = mk(i, how);
+                       if (how == 0) run_case(c, "{}", t);
+                       else run_case(c, t);
+                       c.nontrivial();
+                   },
+                   [mk](uint64_t i) {
+                       unsigned how;
+                       std::string t = mk(i, how);
+                       return strf("%s: %zu ASCII bytes, then %s, then 'z'", how == 0 ? "format {} with a std::string argument" : "format string made of the literal",
+                                   t.size() - 1 - (t.size() > 1 ? 0 : 0), "one multi-byte character");
+                   });
+        const unsigned IMAX = th ? 4200 : 1100;
+        plan.stage(strf("insert:long strings, a 2-/3-/4-byte character at every offset 0..%u, into 4 stream types", IMAX), (uint64_t)3 * (IMAX + 1),
+                   [](uint64_t i, Ctx &c) {
+                       static const char32_t CH[3] = {0xE9, 0x20AC, 0x1F600};
+                       unsigned kind = (unsigned)vf::take(i, 3);
+                       std::u32string t((size_t)i, U'a');
+                       t += CH[kind];
+                       t += U'z';
+                       check_insert_all(c, t);
+                       c.nontrivial();
+                   },
+                   [](uint64_t i) {
+                       unsigned kind = (unsigned)vf::take(i, 3);
+                       return strf("%zu x 'a', then a %u-byte character, then 'z'", (size_t)i, kind + 2);
+                   });
+    }
+    {
         const unsigned L = th ? 4 : 3;
         plan.stage(strf("insert:B^<=%u(17 scalars) into 4 stream types", L), vf::seq_count(NB, L),
                    [L](uint64_t i, Ctx &c) { check_insert_all(c, seq_B(i, L)); },
